@@ -12,14 +12,18 @@ NOTE = "bounded worlds / sampled random histories; harness concretisation, atom 
 TECH = "TLA+ spec (ScannerApi) + TLC: generated behaviours replayed into the code, recorded executions validated by TLC"
 CHECKS = {
  "C01": ("model_checking", "5 C01", G_TEXT + "modes without lookahead: longest match, priority, skipping, byte spans.", NOTE, TECH),
- "C04": ("model_checking", "5 C04", T_TEXT + "modes mixing positive, negative and no lookaheads, with with_offset/set_offset.", NOTE, TECH),
- "C05": ("model_checking", "5 C05", T_TEXT + "modes with two or more patterns and lookaheads: the reported token must be a member of Tokenizer!Best (maximal extent, then first pattern); a panic is an unexplained event.", NOTE, TECH),
- "C06": ("model_checking", "5 C06", T_TEXT + "random mode graphs, set_mode on iterators and scanners, new iterators; current_mode() is compared after every call.", NOTE, TECH),
- "C07": ("model_checking", "5 C07", T_TEXT + "hostile configurations (nullable patterns, 1-4 byte characters, empty inputs), calls after exhaustion; WellFormed/Progress are invariants of the specification and every logged token must be one the specification allows.", NOTE, TECH),
- "C09": ("model_checking", "5 C09", T_TEXT + "WithPositions iterators, position queries for scanned offsets, resets to earlier offsets, exhaustion.", NOTE, TECH),
- "C10": ("model_checking", "5 C10", T_TEXT + "with_offset/set_offset to every kind of boundary, peek_n + advance_to, set_mode.", NOTE, TECH),
- "C11": ("model_checking", "5 C11", T_TEXT + "peek_n(n) at random points of random histories; token list, classification, target mode and purity (later calls) are checked.", NOTE, TECH),
- "C12": ("model_checking", "5 C12", T_TEXT + "up to five interleaved iterators over one scanner, scanner-level set_mode, cached and uncached builds.", NOTE, TECH),
+ "C02": ("translation_validation", "5 C02", "For every mode and lookahead of generated, random and corpus configurations the compiled automaton is dumped (hook) and TLC explores its product with the specification's own position automaton of the source patterns over the atoms of all 1,112,064 scalars; equal accepted token-type sets in every reachable product state decides language equality for ALL strings; static conjuncts: registered class ids, accepting types, empty string not accepted.", "hooks verif_dump/verif_eval_class are faithful copies; leaf membership measured through the public API; TLC; regex-syntax", "TLA+ spec (Equiv over RegexSem's Glushkov automaton) + TLC product exploration on automaton dumps"),
+ "C03": ("translation_validation", "5 C03", "Every (input, output) pair of Minimizer::minimize recorded while building the C02 program set is compared by TLC product exploration over atoms: same accepted types after every string, start state preserved, no more states than before.", "hook records the automata entering and leaving the minimizer; TLC", "TLA+ spec (Equiv) + TLC product exploration on minimizer input/output dumps"),
+ "C04": ("model_checking", "5 C04", G_TEXT + T_TEXT + "modes mixing positive, negative and no lookaheads, with with_offset/set_offset.", NOTE, TECH),
+ "C05": ("model_checking", "5 C05", G_TEXT + T_TEXT + "modes with two or more patterns and lookaheads: the reported token must be a member of Tokenizer!Best (maximal extent, then first pattern); a panic is an unexplained event.", NOTE, TECH),
+ "C06": ("model_checking", "5 C06", G_TEXT + T_TEXT + "random mode graphs, set_mode on iterators and scanners, new iterators; current_mode() is compared after every call.", NOTE, TECH),
+ "C07": ("model_checking", "5 C07", G_TEXT + T_TEXT + "hostile configurations (nullable patterns, 1-4 byte characters, empty inputs), calls after exhaustion; WellFormed/Progress are invariants of the specification and every logged token must be one the specification allows.", NOTE, TECH),
+ "C09": ("model_checking", "5 C09", G_TEXT + T_TEXT + "WithPositions iterators, position queries for scanned offsets, resets to earlier offsets, exhaustion.", NOTE, TECH),
+ "C10": ("model_checking", "5 C10", G_TEXT + T_TEXT + "with_offset/set_offset to every kind of boundary, peek_n + advance_to, set_mode.", NOTE, TECH),
+ "C11": ("model_checking", "5 C11", G_TEXT + T_TEXT + "peek_n(n) at random points of random histories; token list, classification, target mode and purity (later calls) are checked.", NOTE, TECH),
+ "C13": ("model_checking", "5 C13", "TLC enumerates all sequences of cached builds over a base configuration, its one-field neighbours (token type, order, lookahead, polarity, transition, mode name, spelling) and configurations that do not build; each sequence runs in a fresh process through build(), is scanned on all probe inputs and compared with Tokenizer's prescription for that configuration and with a build_uncached twin.", NOTE, "TLA+ spec (Gen_Cache over ScannerApi!Build) + TLC-generated build sequences replayed in fresh processes"),
+ "C15": ("model_checking", "5 C15", "TLC enumerates supported host regexes with one documented-unsupported construct planted at every node position (pattern or lookahead, first or second mode) and replays the builds; random strings over the regex meta-alphabet are built by the harness and TLC validates the verdict (Err iff syntax error or unsupported construct) - a panic is never a behaviour.", NOTE + "; the harness' translation of the regex-syntax AST marks unsupported nodes", TECH),
+ "C12": ("model_checking", "5 C12", G_TEXT + T_TEXT + "up to five interleaved iterators over one scanner, scanner-level set_mode, cached and uncached builds.", NOTE, TECH),
 }
 NOT_YET = {
 }
